@@ -3,6 +3,8 @@ package checks
 import (
 	"fmt"
 	"math/rand"
+	"os"
+	"path/filepath"
 	"strings"
 
 	"verif/internal/core"
@@ -492,5 +494,35 @@ func C14(e *core.Env) int {
 	if len(rep.Samples) == 0 && len(shapes) > 0 {
 		rep.Sample(map[string]any{"shape": shapes[0].key(), "accepted": shapes[0].accept})
 	}
+	c14UserError(e, rep)
 	return rep.Finish()
+}
+
+// c14UserError: "an optional second result must be the built-in error" - a user type that is merely NAMED error
+// (it shadows the built-in one in its package) is not.
+func c14UserError(e *core.Env, rep *core.Report) {
+	bin, err := e.BuildCLI("plain")
+	if err != nil {
+		rep.Inconclusive = append(rep.Inconclusive, err.Error())
+		return
+	}
+	root := filepath.Join(e.Scratch, "c14u")
+	os.MkdirAll(root, 0o755)
+	os.WriteFile(filepath.Join(root, "go.mod"), []byte("module vcase\n\ngo 1.22\n"), 0o644)
+	progs := map[string]string{
+		"iface":  "package p\n\ntype error interface{ Oops() }\ntype A struct{ V int }\ntype T struct{ V int }\n\n// goverter:converter\ntype Conv interface {\n\tM(source A) (T, error)\n}\n",
+		"update": "package p\n\ntype error struct{ Code int }\ntype A struct{ V int }\ntype T struct{ V int }\n\n// goverter:converter\ntype Conv interface {\n\t// goverter:update target\n\tM(source A, target *T) error\n}\n",
+		"vars":   "package p\n\ntype error = string\ntype A struct{ V int }\ntype T struct{ V int }\n\n// goverter:variables\nvar (\n\tM func(source A) (T, error)\n)\n",
+	}
+	for name, src := range progs {
+		dir := filepath.Join(root, name)
+		writeFiles(dir, map[string]string{"p/input.go": src})
+		gr := runGen(e, bin, dir, dir, []string{"gen", "./p"}, nil)
+		rep.Evaluations++
+		if gr.Exit != 1 || strings.TrimSpace(gr.Stderr) == "" {
+			rep.Violation(&core.Viol{Kind: "invalid_signature_accepted", Case: "usererror_" + name, Summary: fmt.Sprintf("a user type named error as second result / update result was accepted (exit %d)", gr.Exit), Detail: src + "\n" + gr.Stderr, Dir: dir, Tags: []string{"use:usererror"}})
+			continue
+		}
+		rep.NonTrivial("usererror|" + name)
+	}
 }
